@@ -63,6 +63,7 @@ type Trace struct {
 	Seed    uint64         `json:"seed"`
 	Tier    string         `json:"tier"`
 	Mode    string         `json:"mode"` // "steps" (execute Steps) or "generate" (regenerate from seed; used for fatal crashes)
+	J       int            `json:"j,omitempty"`
 	Cfg     map[string]int `json:"cfg"`
 	Parties []PartyCfg     `json:"parties"`
 	Steps   []Step         `json:"steps"`
@@ -91,6 +92,7 @@ type RunCtx struct {
 	Prop    *PropDef
 	Seed    uint64
 	Tier    string
+	J       int   // index of the run in the batch (exploring only; enumerating properties map it to a case)
 	Rng     *PRNG // scheduling PRNG; nil when replaying
 	Replay  bool
 	Cfg     map[string]int
@@ -228,8 +230,8 @@ func runInBubble(t *testing.T, rc *RunCtx) (v *Violation) {
 }
 
 // Explore performs one generated run for (prop, seed).
-func Explore(t *testing.T, p *PropDef, seed uint64, tier string, keepLog bool, journal *os.File) (*RunCtx, *Violation) {
-	rc := &RunCtx{Prop: p, Seed: seed, Tier: tier, Rng: Fork(seed, "sched", 0), Cfg: map[string]int{}, Max: p.MaxSteps, KeepLog: keepLog, journal: journal}
+func Explore(t *testing.T, p *PropDef, seed uint64, tier string, keepLog bool, journal *os.File, j int) (*RunCtx, *Violation) {
+	rc := &RunCtx{Prop: p, Seed: seed, Tier: tier, J: j, Rng: Fork(seed, "sched", 0), Cfg: map[string]int{}, Max: p.MaxSteps, KeepLog: keepLog, journal: journal}
 	if p.Config != nil {
 		p.Config(rc)
 	}
@@ -249,7 +251,7 @@ func ReplayTrace(t *testing.T, p *PropDef, tr *Trace, keepLog bool) (*RunCtx, *V
 			// steps are written before they are executed, so a fatal crash or hang can be attributed
 			j, _ = os.Create(path)
 		}
-		return Explore(t, p, tr.Seed, tr.Tier, keepLog, j)
+		return Explore(t, p, tr.Seed, tr.Tier, keepLog, j, tr.J)
 	}
 	cfg := map[string]int{}
 	for k, v := range tr.Cfg {
